@@ -164,6 +164,41 @@ theorem withAttrs_same (c : String) (fs : List (String × PVal)) (a : Attrs) (h 
 @[simp] theorem globalsOf_isSpace (cfg : Cfg) (sp : Char → Bool) (lw : Str → Str) : (globalsOf cfg sp lw).isSpace = sp := rfl
 @[simp] theorem globalsOf_lower (cfg : Cfg) (sp : Char → Bool) (lw : Str → Str) : (globalsOf cfg sp lw).lower = lw := rfl
 
+/-- the end of every mutating method: store the new attributes in the receiver and return it -/
+theorem bind_embRes_setAttr (c : String) (fs : List (String × PVal)) (r : Except Err Attrs) :
+    (do
+      let x ← embRes embAttrs r
+      let y ← pySetAttr (.obj c fs) "attrs" x
+      Except.ok y : PyM PVal) = embRes (withAttrs c fs) r := by
+  cases r <;> rfl
+
+/-! ### the semicolon test of `add_style` -/
+
+/-- `isinstance(style, (str, HTML))` on the model's argument kinds -/
+def strLike : AttrArg → Bool
+  | .str _ => true
+  | .html _ => true
+  | _ => false
+
+/-- `style.endswith(";")` -/
+def semiArg : AttrArg → Bool
+  | .str s => endsSemi s
+  | .html s => endsSemi s
+  | _ => false
+
+theorem isInstance_embArg_strLike (v : AttrArg) : isInstance (embArg v) ["str", "HTML"] = strLike v := by
+  cases v <;> simp [embArg, isInstance, builtinClasses, classBases, strLike]
+
+theorem endswith_embArg (v : AttrArg) (h : strLike v = true) :
+    pyEndswith (embArg v) (.str [';']) = .ok (.bool (semiArg v)) := by
+  cases v with
+  | str s => exact endswith_semi_str s
+  | html s => exact endswith_semi_html s
+  | _ => cases h
+
+theorem styleRejected_eq (v : AttrArg) : styleRejected v = (strLike v && !semiArg v) := by
+  cases v <;> rfl
+
 /-! ### the comprehension of `remove_class` -/
 
 /-- a loop over strings whose body — whatever its text — appends the item to the accumulated list exactly when it
